@@ -195,7 +195,7 @@ def ridders(F, h0, con=1.4, ntab=10, safe=2.0):
 def run_case(src, seed=0, only=None):
     """Build the module from `src` and evaluate the adjoint identity. Returns (failures, ncases).
     Names read from the namespace after exec(src):
-      m        the module (its input signals hold the input state)                         [required]
+      m        the module (its input signals hold the input state); the source may use SEED (= seed) for its data   [required]
       MODE     'linear' | 'poly' | 'smooth' | 'cstep'                                               [default 'smooth']
       H0       first step of the extrapolated difference ('smooth')                          [1e-2]
       TOL      relative tolerance on the identity (relative to sum |w||dy| + sum |g||v|)     [1e-10 linear/poly, 1e-6 smooth]
@@ -209,7 +209,7 @@ def run_case(src, seed=0, only=None):
       PSTEP    step to the next point [25*H0 for 'smooth'/'cstep', 0.25 otherwise]
       PRESET   also run sensitivity() onto a pre-set input sensitivity of the kind of the state (accumulation)      [True]
     """
-    ns = {'np': np, 'pym': pym, 'sps': sps, 'DyadCarrier': DyadCarrier}
+    ns = {'np': np, 'pym': pym, 'sps': sps, 'DyadCarrier': DyadCarrier, 'SEED': seed}
     exec(compile(src, __file__, 'exec'), ns)   # a real file name keeps pymoto's inspect.stack() bookkeeping cheap
     if ns.get('SKIP'):   # the case cannot be built in this environment (optional dependency missing)
         return [], 0
@@ -333,7 +333,7 @@ def run_case(src, seed=0, only=None):
                 elif mode == 'poly':
                     dflat, err = (8 * (F(1.0) - F(-1.0)) - (F(2.0) - F(-2.0))) / 12, 0.0
                 elif mode == 'cstep':
-                    ns2 = {'np': np, 'pym': pym, 'sps': sps, 'DyadCarrier': DyadCarrier}
+                    ns2 = {'np': np, 'pym': pym, 'sps': sps, 'DyadCarrier': DyadCarrier, 'SEED': seed}
                     exec(compile(src, __file__, 'exec'), ns2)
                     m2 = ns2['m']
                     for s, x, v in zip(m2.sig_in, x0, vs):
